@@ -124,6 +124,18 @@ theorem callFn_not_nodes (d : Doc) (cfg : ECfg) (c : Ref) (l : List Ref) :
     callFn (F := F) d cfg "not" .nil c [.ok (.nodes l)] none = .ok (.bool l.isEmpty) := by
   simp [callFn, bind, Except.bind]
 
+/-- after the repair of `notFunc` (`default: return !asBool(t, v)`): `not(number)` is the oracle's -/
+theorem callFn_not_num (d : Doc) (cfg : ECfg) (c : Ref) (x : F) :
+    callFn (F := F) d cfg "not" .nil c [.ok (.num x)] none =
+      .ok (.bool (!Spec.toBool (F := F) (.num x))) := by
+  simp [callFn, asBoolM, Spec.toBool, bind, Except.bind]
+
+/-- … and so is `not(string)` -/
+theorem callFn_not_str (d : Doc) (cfg : ECfg) (c : Ref) (s : String) :
+    callFn (F := F) d cfg "not" .nil c [.ok (.str s)] none =
+      .ok (.bool (!Spec.toBool (F := F) (.str s))) := by
+  simp [callFn, asBoolM, Spec.toBool, bind, Except.bind]
+
 theorem evalP_not (d : Doc) (cfg : ECfg) (pl : Plan) (c : Ref) :
     evalP (F := F) d cfg (.func "not" .nil (.pcons pl .pnil)) c =
       callFn (F := F) d cfg "not" .nil c [evalP (F := F) d cfg pl c] none := by
